@@ -4,6 +4,9 @@ using namespace IMATH_INTERNAL_NAMESPACE;
 #include "main.h"
 #include "ops_leaf.h"
 #include "c08_modes.h" // extra modes ratwit / rateval / ratargs / ratwith used by tools/props/c08.py; every other mode is sym_main's
+C08_REG (v2_length, "V2.length")
+C08_REG (v3_length, "V3.length")
+C08_REG (v4_length, "V4.length")
 int main (int argc, char** argv)
 {
     int rc = c08modes::extra_main (argc, argv);
